@@ -63,6 +63,15 @@ func newAuthFixture(dir string, useAuth, profiling, metrics bool) (*authFixture,
 		}
 		*p = t.Token
 	}
+	// the token that is revoked below was in use before (a lookup cache must not outlive the revocation)
+	if useAuth {
+		if r, _ := s.Do("GET", apiPrefix+"/chain/tip/longest", map[string]string{"Authorization": "Bearer " + f.Revoked}, nil); r.Code != 200 {
+			return nil, fmt.Errorf("fixture: fresh token was not accepted (%d)", r.Code)
+		}
+	}
+	if _, err := s.Services.Tokens.GetToken(f.Revoked); err != nil {
+		return nil, err
+	}
 	if err := s.Services.Tokens.DeleteToken(f.Revoked); err != nil {
 		return nil, err
 	}
